@@ -108,10 +108,65 @@ fn run_task(db: &mut RootDatabase, inputs: &[CrateInput], t: &Task, on_thread: b
     }
 }
 
+/// `verif c12-fresh <project index>`: compile the project in this (fresh) process and print the artefact hashes.
+pub fn fresh_main(idx: usize) {
+    let p = &PROJECTS[idx];
+    let mut db = new_db(&Cfg::DEFAULT);
+    let Some(inputs) = load(&mut db, p) else {
+        println!("does-not-load");
+        return;
+    };
+    println!("{:?}", artefacts(&db, &inputs));
+}
+
 fn run_all(ctx: &mut Ctx) {
     let tier = ctx.tier;
     let depth = tier.pick(2, 3);
     let nprojects = tier.pick(2, PROJECTS.len());
+    // "identical on every run": the fork-snapshot children below all inherit one process image, including the
+    // per-process keys of std's RandomState, so iteration-order leaks of a std HashMap would be invisible to
+    // them.  Each project is therefore also compiled in several fresh processes (own hasher keys, different
+    // rayon pool sizes) and the artefacts compared.
+    for (pi, p) in PROJECTS.iter().enumerate().take(nprojects) {
+        ctx.case(
+            || json!({"space":"fresh-processes","project":p.name}),
+            |ctx| {
+                let exe = std::env::current_exe().expect("current_exe");
+                let threads = tier.pick(vec!["1", "4"], vec!["1", "2", "4", "16", "3", "1"]);
+                let children: Vec<_> = threads
+                    .iter()
+                    .map(|t| std::process::Command::new(&exe).args(["c12-fresh", &pi.to_string()]).env("RAYON_NUM_THREADS", t).stdout(std::process::Stdio::piped()).stderr(std::process::Stdio::null()).spawn())
+                    .collect();
+                let mut outs: Vec<(String, String)> = vec![];
+                for (t, c) in threads.iter().zip(children) {
+                    let Ok(c) = c else {
+                        ctx.note("c12-fresh: spawn failed".into());
+                        continue;
+                    };
+                    match c.wait_with_output() {
+                        Ok(o) if o.status.success() => outs.push((t.to_string(), String::from_utf8_lossy(&o.stdout).trim().to_string())),
+                        Ok(o) => ctx.violation("fresh-process-compile-died", format!("compiling project {} in a fresh process ended with {:?}", p.name, o.status), json!({"project": p.name, "rayon_threads": t})),
+                        Err(_) => ctx.note("c12-fresh: wait failed".into()),
+                    }
+                }
+                ctx.count("fresh_process_compilations", outs.len() as i64);
+                ctx.count("evaluations", outs.len() as i64);
+                for (t, o) in &outs {
+                    ctx.distinct(&(p.name, "fresh", t));
+                    if *o != outs[0].1 {
+                        ctx.violation(
+                            "differs-between-processes",
+                            format!("project {} compiled in two fresh processes gives different artefacts: {} vs {}", p.name, outs[0].1.chars().take(300).collect::<String>(), o.chars().take(300).collect::<String>()),
+                            json!({"project": p.name, "rayon_threads": [outs[0].0, t]}),
+                        );
+                    }
+                }
+                if let Some((_, o)) = outs.first() {
+                    ctx.outcome(if o.starts_with("Ok") { "fresh-process-artefacts-equal-class" } else { "fresh-process-compile-error" });
+                }
+            },
+        );
+    }
     for p in PROJECTS.iter().take(nprojects) {
         // the task alphabet of this project (needs the number of functions: computed in a probe child)
         let mut probe_db = new_db(&Cfg::DEFAULT);
@@ -275,7 +330,7 @@ fn run_all(ctx: &mut Ctx) {
 pub static C12: CheckDef = CheckDef {
     id: "C12",
     level: "model_checking",
-    rule: "Model: a schedule is abstracted to the order in which top-level queries first execute (tracked queries run on exactly one thread; the schedule-dependent state is which queries ran before and the first-come order of interned ids) and the thread each runs on. Task alphabet per project: function_with_body_sierra of k functions spread over the crate (quick 6, thorough 14), all diagnostics of the project, the whole Sierra program, and diagnostics+Sierra of two unrelated crates added to the same database. Enumerated: EVERY sequence of <=2 (thorough <=3) distinct tasks x {main thread, a second OS thread on a database snapshot} per task, by fork-snapshot DFS on the real RootDatabase (each node is a copy-on-write process image), for projects examples/ and a 24-module crate of hand-written programs (thorough: + tests/bug_samples). Oracle: after every history the diagnostics text, Sierra with debug names, canonical Sierra and CASM text are byte-identical (Sierra printed with raw salsa intern ids is first-come by design and is not part of the property) (hash + length) to the empty-history baseline. states/transitions = histories executed; traces_validated_against_impl = all of them. Auxiliary, sampled, not deciding: compile_prepared_db_program_artifact under rayon pools of 1/2/4/16 threads must agree across runs and across pool sizes (maxs.rayon_hash_*).",
+    rule: "(0) every project compiled in 2 (thorough 6) fresh processes - own std RandomState keys, rayon pools of 1/2/3/4/16 threads - must give byte-identical artefacts (the fork-snapshot children below share one process image and would not see a hash-iteration-order leak). (1) Model: a schedule is abstracted to the order in which top-level queries first execute (tracked queries run on exactly one thread; the schedule-dependent state is which queries ran before and the first-come order of interned ids) and the thread each runs on. Task alphabet per project: function_with_body_sierra of k functions spread over the crate (quick 6, thorough 14), all diagnostics of the project, the whole Sierra program, and diagnostics+Sierra of two unrelated crates added to the same database. Enumerated: EVERY sequence of <=2 (thorough <=3) distinct tasks x {main thread, a second OS thread on a database snapshot} per task, by fork-snapshot DFS on the real RootDatabase (each node is a copy-on-write process image), for projects examples/ and a 24-module crate of hand-written programs (thorough: + tests/bug_samples). Oracle: after every history the diagnostics text, Sierra with debug names, canonical Sierra and CASM text are byte-identical (Sierra printed with raw salsa intern ids is first-come by design and is not part of the property) (hash + length) to the empty-history baseline. states/transitions = histories executed; traces_validated_against_impl = all of them. Auxiliary, sampled, not deciding: compile_prepared_db_program_artifact under rayon pools of 1/2/4/16 threads must agree across runs and across pool sizes (maxs.rayon_hash_*).",
     assumptions: &["no preemption inside a query is explored (salsa-under-shuttle is infeasible here: see DESIGN §1)", "a bug needing an interleaving finer than whole top-level queries is outside the bound"],
     run: run_all,
     stack_mb: 64,
